@@ -47,7 +47,11 @@ EXPLANATION = ("Theorems (Props/C13.lean, about the definitions drv_c13 runs; th
                "sides only), offset_spec / offset_neg_spec / offset_default / offset_list_spec / offset_list_default / offsets_enumerate_whole / "
                "tree_get_label (Tree.get / TreeList.get are 'read every collection, then index', in the code and in the model alike: the content "
                "of these theorems is the Python indexing arithmetic incl. negative offsets and that label= touches nothing but the name). "
-               "Loops that re-check progress at run time answer `stuck` otherwise; a stuck answer is a disagreement (never observed). "
+               "newickStmt_progress / nexusTreeStmt_progress (the shared tree-statement parser consumes >= 1 token whenever it delivers a "
+               "tree; Theory/C13Progress.lean) and newickIter_check_dead / newickYieldLoop_check_dead / treeRunR_check_dead / "
+               "treeRunY_check_dead (hence the run-time progress checks of the four loops over it are dead code: each loop satisfies the plain "
+               "unfolding of the Python `while True`). The remaining loops (child loop inside the parser, TAXA / TRANSLATE / TREES-block / "
+               "stream loops) still re-check progress at run time and answer `stuck` otherwise; a stuck answer is a disagreement (never observed). "
                "Generated documents avoid three input classes listed as known findings; their witnesses are replayed on every run.")
 
 ROUTE_TIMEOUT = 20
@@ -450,6 +454,55 @@ def check_tree_routes(ctx, dendropy, doc, mode, tmpdir, full=True):
             case.same("TreeList.read per collection", got, ref)
             if counts != [len(b) for b in blocks]:
                 case.fail("route", "TreeList.read per collection", "reports %s trees read, collections hold %s" % (counts, [len(b) for b in blocks]))
+    # incremental read WITH offsets into a list that already holds trees (pooling sources with a burn-in): the trees already
+    # there stay, untouched and in place; exactly the selected trees of the selected collection are appended
+    if blocks:
+        combos = []
+        for c, bl in enumerate(blocks):
+            if bl:
+                combos.append((c, None))
+                combos.append((c, len(bl) // 2))
+                combos.append((c, -1))
+                if len(bl) > 1:
+                    combos.append((c, 1))
+                    combos.append((c, -len(bl)))
+        if blocks[0]:
+            combos.append((None, min(1, len(blocks[0]) - 1)))
+            combos.append((None, -1))
+        if not full:
+            combos = combos[:3]
+        elif len(combos) > 6:
+            import random as _random     # a choice that depends on the document only, so that a replay makes the same one
+            combos = [combos[i] for i in sorted(_random.Random(len(text) * 7919 + len(ref)).sample(range(len(combos)), 6))]
+        for c, k in combos:
+            extra = {}
+            if c is not None:
+                extra["collection_offset"] = c
+            if k is not None:
+                extra["tree_offset"] = k
+            name = "TreeList.read(%s) into a populated list" % ", ".join("%s=%d" % kv for kv in sorted(extra.items()))
+
+            def populated_read():
+                tl = R.d.TreeList.get(**R._kw("data"))
+                before = list(tl)
+                kw2 = R._kw("data", **extra)
+                kw2.pop("taxon_namespace", None)
+                n = tl.read(**kw2)
+                return tl, before, n
+            r = case.attempt(name, populated_read, coll=c, tree=k)
+            if r is None:
+                continue
+            tl, before, n = r
+            bl = blocks[c if c is not None else 0]
+            want_new = bl if k is None else bl[k:]
+            if len(tl) < len(before) or any(a is not b for a, b in zip(tl, before)):
+                case.fail("route", name, "the %d trees the list held before the read are not all there any more, in place (list now holds %d trees)" % (
+                    len(before), len(tl)), coll=c, tree=k)
+                continue
+            tk2 = R.tk if R.ns is not None else TaxKey(None)
+            got_new = [tree_rec(t, tk2) for t in list(tl)[len(before):]]
+            if case.same(name, got_new, want_new, "the selected trees of the collection", coll=c, tree=k) and n != len(want_new):
+                case.fail("route", name, "reports %d trees read, %d were selected" % (n, len(want_new)), coll=c, tree=k)
     # the one-tree-at-a-time iterator
     for how in (("file", "path") if full else ("file",)):
         name = "Tree.yield_from_files([%s])" % how
@@ -1039,6 +1092,42 @@ def correspond_incremental(ctx, dendropy, docA, docB, session):
     line = model_line("list", docB, toksB, tailB, ns_title=None if j["title"] is None else unhex6(j["title"]),
                       ns_labels=[unhex6(x) for x in j["ns"]], existing=len(j["r"]))
     session.add(line, "TreeList.read after get", {"schema": schema, "first": docA["text"], "text": docB["text"], "opts": opts}, impl, canon)
+    # the same with offsets: TreeList.read(B, collection_offset=c, tree_offset=k) into the list holding A's trees
+    try:
+        shapeB = [len(x) for x in dendropy.DataSet.get(data=docB["text"], schema=schema, **opts).tree_lists]
+    except Exception:
+        shapeB = []
+    offs = []
+    for c, n_ in enumerate(shapeB[:2]):
+        offs += [(c, None), (c, n_ // 2), (c, -1), (c, n_)]
+    offs += [(None, 1), (len(shapeB), 0)]
+    for c, k in offs:
+        ex = {}
+        if c is not None:
+            ex["collection_offset"] = c
+        if k is not None:
+            ex["tree_offset"] = k
+
+        def run_(ex=ex):
+            tl_ = dendropy.TreeList.get(data=docA["text"], schema=schema, **opts)
+            old = list(tl_)
+            tl_.read(data=docB["text"], schema=schema, **dict(opts, **ex))
+            kept = len(tl_) >= len(old) and all(a is b for a, b in zip(tl_, old))
+            new_ = list(tl_)[len(old):]
+            return {"kept": kept, "trees": [tree_rec(t, tk) for t in new_], "ident": identity_pattern_impl(list(tl_))}
+
+        def canon_(j2, n0=len(j["r"])):
+            if "err" in j2:
+                return {"err": canon_err(j2["err"])}
+            labels = [unhex6(x) for x in j2["ns"]]
+            old, trees = j2["r"][:n0], j2["r"][n0:]
+            kept = len(old) == n0 and all(t["n"] is not None and unhex6(t["n"]) == "e%d" % i for i, t in enumerate(old))
+            return {"kept": kept, "trees": [mc.tree(t, labels) for t in trees], "ident": identity_pattern_model(j["r"] + trees)}
+        session.add(model_line("list", docB, toksB, tailB, ns_title=None if j["title"] is None else unhex6(j["title"]),
+                               ns_labels=[unhex6(x) for x in j["ns"]], existing=len(j["r"]), coll=c, tree=k),
+                    "TreeList.read(%s,%s) into a populated list" % (c, k),
+                    {"schema": schema, "first": docA["text"], "text": docB["text"], "opts": opts, "coll": c, "tree": k},
+                    impl_answer(run_), canon_)
     # DataSet.read into a data set that already holds the collections of A (no attached namespace: B gets namespaces of its own)
     try:
         with time_limit(ROUTE_TIMEOUT):
@@ -1123,7 +1212,7 @@ def one_document(ctx, dendropy, doc, tmpdir, session, full=True, kind=None):
 def run(ctx):
     dendropy = __import__("dendropy")
     rng = ctx.rng
-    ctx.set_budget(33, 780)
+    ctx.set_budget(22, 780)
     tmpdir = tempfile.mkdtemp(prefix="c13-")
     session = ModelSession(ctx)
     try:
